@@ -22,6 +22,12 @@ def conformerOp (op : String) (j : Json) : Except String Json := do
     let out := filterConformers n E rmsd first cutoff window
     return okJ (Json.mkObj [("accepted", natsToJson out.accepted), ("energies", Json.arr (out.energies.map ratToJson).toArray),
       ("rmsds", Json.arr (out.rmsds.map (fun r => Json.arr (r.map ratToJson).toArray)).toArray)])
+  | "conf.gen_hist" =>
+    -- one generator object, a history of molecules given by their rotatable-bond counts
+    let g := CGen.new (← jInt (← jField j "num_conf")) (← jInt (← jField j "first")) (← jNat (← jField j "pool"))
+    let rots ← jList jNat (← jField j "rots")
+    let (_, out) := g.runMols rots
+    return okJ (Json.arr (out.map (fun t => Json.arr #[Json.num t.1, Json.num t.2.1, Json.num t.2.2])).toArray)
   | _ => .error s!"unknown op {op}"
 
 end E3fpVerif
